@@ -398,6 +398,23 @@ impl<P: RuntimeProvider + Send + Sync> SqliteZoneHandler<P> {
         //      for rrset in temp
         //           if (zone_rrset<rrset.name, rrset.type> != rrset)
         //                return (NXRRSET)
+
+        // zone_name<> and zone_rrset<> are tests on the RRs stored in the zone under exactly that
+        //  owner name, not query lookups: no CNAME chasing, wildcard synthesis or referrals.
+        let records = self.in_memory.records().await;
+        let zone_name = |name: &LowerName| {
+            let start_range_key = RrKey::new(name.clone(), RecordType::Unknown(u16::MIN));
+            let end_range_key = RrKey::new(name.clone(), RecordType::Unknown(u16::MAX));
+            records
+                .range(&start_range_key..&end_range_key)
+                .any(|(_, rrset)| !rrset.is_empty())
+        };
+        let zone_rrset = |name: &LowerName, record_type: RecordType| {
+            records
+                .get(&RrKey::new(name.clone(), record_type))
+                .filter(|rrset| !rrset.is_empty())
+        };
+
         for require in pre_requisites {
             let required_name = LowerName::from(&require.name);
 
@@ -418,17 +435,7 @@ impl<P: RuntimeProvider + Send + Sync> SqliteZoneHandler<P> {
                         match require.record_type() {
                             // ANY      ANY      empty    Name is in use
                             RecordType::ANY => {
-                                if self
-                                    .lookup(
-                                        &required_name,
-                                        RecordType::ANY,
-                                        None,
-                                        LookupOptions::default(),
-                                    )
-                                    .await
-                                    .unwrap_or_default()
-                                    .was_empty()
-                                {
+                                if !zone_name(&required_name) {
                                     return Err(ResponseCode::NXDomain);
                                 } else {
                                     continue;
@@ -436,12 +443,7 @@ impl<P: RuntimeProvider + Send + Sync> SqliteZoneHandler<P> {
                             }
                             // ANY      rrset    empty    RRset exists (value independent)
                             rrset => {
-                                if self
-                                    .lookup(&required_name, rrset, None, LookupOptions::default())
-                                    .await
-                                    .unwrap_or_default()
-                                    .was_empty()
-                                {
+                                if zone_rrset(&required_name, rrset).is_none() {
                                     return Err(ResponseCode::NXRRSet);
                                 } else {
                                     continue;
@@ -457,17 +459,7 @@ impl<P: RuntimeProvider + Send + Sync> SqliteZoneHandler<P> {
                         match require.record_type() {
                             // NONE     ANY      empty    Name is not in use
                             RecordType::ANY => {
-                                if !self
-                                    .lookup(
-                                        &required_name,
-                                        RecordType::ANY,
-                                        None,
-                                        LookupOptions::default(),
-                                    )
-                                    .await
-                                    .unwrap_or_default()
-                                    .was_empty()
-                                {
+                                if zone_name(&required_name) {
                                     return Err(ResponseCode::YXDomain);
                                 } else {
                                     continue;
@@ -475,12 +467,7 @@ impl<P: RuntimeProvider + Send + Sync> SqliteZoneHandler<P> {
                             }
                             // NONE     rrset    empty    RRset does not exist
                             rrset => {
-                                if !self
-                                    .lookup(&required_name, rrset, None, LookupOptions::default())
-                                    .await
-                                    .unwrap_or_default()
-                                    .was_empty()
-                                {
+                                if zone_rrset(&required_name, rrset).is_some() {
                                     return Err(ResponseCode::YXRRSet);
                                 } else {
                                     continue;
@@ -494,17 +481,8 @@ impl<P: RuntimeProvider + Send + Sync> SqliteZoneHandler<P> {
                 class if class == self.in_memory.class() =>
                 // zone     rrset    rr       RRset exists (value dependent)
                 {
-                    if !self
-                        .lookup(
-                            &required_name,
-                            require.record_type(),
-                            None,
-                            LookupOptions::default(),
-                        )
-                        .await
-                        .unwrap_or_default()
-                        .iter()
-                        .any(|rr| rr == require)
+                    if !zone_rrset(&required_name, require.record_type())
+                        .is_some_and(|rrset| rrset.records_without_rrsigs().any(|rr| rr == require))
                     {
                         return Err(ResponseCode::NXRRSet);
                     } else {
